@@ -224,6 +224,8 @@ def check(P: Project, R: Report) -> None:
                     o_ = an_.origin(ast.unparse(side))
                     if "send_message(" in o_ and "protocolVersion" in o_ and "model_validate" in o_:
                         n_ += 1
+                        if isinstance(node_.ops[0], ast.NotIn) and side is node_.left and whose_list(ast.unparse(node_.comparators[0]), st):
+                            n_ += 1  # one membership test in the supported list is the whole acceptance test (the proposal is a member)
                         break
         return n_ >= 2
 
